@@ -548,7 +548,7 @@ def judge(ctx, r, stats, mdl):
             stats["kf"] += 1
             return []
         if (facts["units_name_clash"] or facts["suffixed_units_names"] or facts["base_units_clash"]) and md in ("FFUEL", "FCRASH") and ctx.known_finding(
-                KF_CAPTURE, "%s: flattenModel %s (%s)" % (r["name"], F, "endless recursion through a units cycle closed by the renaming" if md == "FFUEL"
+                KF_CAPTURE, "%s: flattenModel %s (%s)" % (r["name"], F, "transferUnitsRenamingIfRequired recurses without end over a units cycle that the renaming closed in the imported model's clone" if md == "FFUEL"
                                                          else "a captured name brought an unresolved imported units into the flat model")):
             stats["kf"] += 1
             return []
@@ -713,7 +713,7 @@ def run(ctx):
     # cases that fail: is the implementation the code as it was before the C06 fix commits (fixes/C06-*.diff)?
     if verdicts:
         root = os.path.join(ctx.workdir, "run")
-        old = run_sharded(mdl, ["0000000 %s" % r["cpp"].get("X", "") for r, _ in verdicts], root, "ml_unfixed")
+        old = run_sharded(mdl, ["00000000 %s" % r["cpp"].get("X", "") for r, _ in verdicts], root, "ml_unfixed")
         for (r, res), l in zip(verdicts, old):
             um = fields(l)
             F = cpp_outcome(r["cpp"])
